@@ -55,6 +55,7 @@ type rig struct {
 	opts     rigOpts
 	buf      []evalRec
 	nSeen    int
+	curNN    string
 	sampled  map[string]bool
 	dry      bool // count only (unit weights)
 	nDry     int
@@ -261,6 +262,7 @@ func (r *rig) installMetrics(n int, st []int, nonnum string) {
 		}
 	}
 	r.curSt = append([]int{}, st...)
+	r.curNN = nonnum
 }
 
 func (r *rig) peers(l []int) []peer.ID {
@@ -436,6 +438,7 @@ func (r *rig) evaluate(sec string, c Case) Obs {
 		r.nDry++
 		return Obs{}
 	}
+	c.NonNum = r.curNN
 	o := r.run(c)
 	r.report(sec, c, o)
 	return o
@@ -507,6 +510,7 @@ func (r *rig) report(sec string, c Case, o Obs) {
 	for _, v := range judge(c, o) {
 		key := fmt.Sprintf("C03|%s|%s|%s", c.Entry, c.Alloc, v.clause)
 		R.Violation(key, map[string]interface{}{"case": c, "case_text": c.String(), "observed": o, "why": v.msg,
+			"replay": "/verif/vcheck C03 quick --replay <this file>",
 			"legend": "metric_state codes: 0 absent,1 expired,2 invalid,3 nonnum,4 v2,5 v10,6 v30; peers are indices, 0 = the peer under test"})
 	}
 	if c.Entry == "shortcut" && !o.Failed {
